@@ -26,6 +26,7 @@ package internal
 //@ ghost rawErr: int -> error
 
 //@ func WriteRawMessageContents
+//@   dead "invalid message contents data type" //# excluded by knownData: the oneof has no other cases
 //@   requires knownData(contents) && writer != nil
 //@   modifies wrOut, bufContent, cmpDst, cmpBuf, cmpBase, cmpBaseB, rawErr
 //@   assume_ensures rawErr[0] == result
